@@ -13,10 +13,17 @@ def det(name, run, quick=None, thorough=None, **kw):
     return u
 
 
+# Calibration: the per-shard case counts written at each unit below were chosen while building (every check then took
+# 1-8 s). QSCALE / TSCALE raise them to the budget we actually want: quick <= ~30 s per property on an idle 16-core
+# machine, thorough ~ 5-15 min per property.
+QSCALE = 4
+TSCALE = 3
+
+
 def rap(name, run, qchecks, tchecks, qshards=1, tshards=16, **kw):
     u = {"name": name, "run": run, "rapid": True,
-         "quick": {"checks": qchecks, "shards": qshards},
-         "thorough": {"checks": tchecks, "shards": tshards}}
+         "quick": {"checks": qchecks * kw.pop("qscale", QSCALE), "shards": qshards},
+         "thorough": {"checks": tchecks * kw.pop("tscale", TSCALE), "shards": tshards}}
     for k in ("qenv", "tenv"):
         if k in kw:
             u["quick" if k == "qenv" else "thorough"]["env"] = kw.pop(k)
@@ -42,7 +49,7 @@ PROPS = {
             det("table", "^TestC10Table$"),
             det("step", "^TestC10Step$"),
             det("short", "^TestC10Short$"),
-            rap("split", "^TestC10Split$", 1500, 6000, 2, 16),
+            rap("split", "^TestC10Split$", 1500, 6000, 2, 16, qscale=2),
         ],
     },
     "C15": {
@@ -101,7 +108,7 @@ PROPS = {
             rap("decode", "^TestC12Decode$", 12000, 100000, 4, 16),
             det("sweep", "^TestC12Sweep$"),
             rap("encode", "^TestC12Encode$", 3000, 25000, 4, 16),
-            rap("clock", "^TestC12Clock$", 20000, 200000, 1, 4),
+            rap("clock", "^TestC12Clock$", 20000, 200000, 1, 4, qscale=2),
         ],
     },
     "C14": {
@@ -154,7 +161,7 @@ PROPS = {
                 "ending within 2 bytes of a packet boundary; distinct by history (operations, arguments' sizes, results)",
         "assumptions": ["WritePacket PIDs (0x1F00-0x1F0F) are disjoint from elementary stream PIDs"],
         "units": [
-            rap("history", "^TestC04History$", 2500, 25000, 4, 16),
+            rap("history", "^TestC04History$", 2500, 25000, 4, 16, qscale=10, tscale=6),
         ],
     },
     "C05": {
@@ -168,7 +175,7 @@ PROPS = {
                 "generation followed by a successful one, or an adaptation field leaving no room for the PES header; distinct by history",
         "assumptions": [],
         "units": [
-            rap("history", "^TestC05History$", 2000, 20000, 4, 16),
+            rap("history", "^TestC05History$", 2000, 20000, 4, 16, qscale=10, tscale=6),
         ],
     },
     "C01": {
@@ -183,7 +190,7 @@ PROPS = {
                 "adaptation field; distinct by history",
         "assumptions": ["the last PES of a stream incarnation may be lost when the same PID is removed and re-added (new continuity counter)"],
         "units": [
-            rap("roundtrip", "^TestC01RoundTrip$", 3000, 25000, 4, 16),
+            rap("roundtrip", "^TestC01RoundTrip$", 3000, 25000, 4, 16, qscale=8, tscale=5),
         ],
     },
     "C17": {
@@ -319,7 +326,7 @@ PROPS = {
         "assumptions": ["a null packet (payload 0xFF) is the first packet so that the 193-byte detection window holds no spurious sync byte"],
         "units": [
             rap("reading", "^TestC08Reading$", 40, 400, 6, 16),
-            rap("boundaries", "^TestC08Boundaries$", 2, 20, 8, 16),
+            rap("boundaries", "^TestC08Boundaries$", 2, 20, 8, 16, qscale=2),
         ],
     },
     "C19": {
